@@ -77,6 +77,8 @@ def check(prog: Program, run: Run) -> None:
              "inverse of the decoding formula (shared with C03.R1)", floor=2)
     _pairing(prog, run)
     _positioning(prog, run)
+    _placeholder_width(prog, run)
+    _journal_direction(prog, run)
     _recording(prog, run)
     _both_directions(prog, run)
     _case_coverage(prog, run)
@@ -89,6 +91,93 @@ def check(prog: Program, run: Run) -> None:
     run_as(run, "C02.R5", "C01.R8", lambda r: c02._strings(prog, r))
     from . import compu
     run_as(run, "C03.R1", "C01.R9", lambda r: compu.linear_forms(prog, r, "C03.R1", "C03.R1"))
+
+
+# ----------------------------------------------------------------------- R3 (journal lookups)
+def _journal_direction(prog: Program, run: Run, R: str = "C01.R3") -> None:
+    """A parameter that refers to an earlier one by name (ENV-DATA-DESC -> its DTC) finds it by
+    searching the journal of the parameters processed so far. In a field the same name occurs
+    once per item, so the search must start at the most recent entry -- on both sides."""
+    n = 0
+    per_class: Dict[str, Set[str]] = {}
+    for f in prog.iter_functions():
+        for l in walk_no_nested(f.node):
+            if not (isinstance(l, ast.For) and any(isinstance(y, ast.Attribute) and
+                                                  y.attr == "journal" for y in ast.walk(l.iter))):
+                continue
+            n += 1
+            it = l.iter
+            recent_first = (isinstance(it, ast.Call) and call_name(it) == "reversed") or (
+                isinstance(it, ast.Subscript) and isinstance(it.slice, ast.Slice) and
+                it.slice.step is not None and ast.unparse(it.slice.step) == "-1")
+            stops = any(isinstance(y, (ast.Break, ast.Return)) for y in ast.walk(l))
+            per_class.setdefault(f.cls.name if f.cls else f.qual, set()).add(
+                "recent" if recent_first else "oldest")
+            if stops and not recent_first:
+                run.violation(R, f.qual, "journal-oldest-first",
+                              f"`for ... in {ast.unparse(it)}` takes the FIRST parameter of that "
+                              "name ever processed: in a field with several items the value of "
+                              "the first item is used for every later item",
+                              f"{f.module.rel}:{l.lineno}", stmt_key(l))
+            else:
+                run.ok(R, f.qual, "searches the journal from the most recent entry",
+                       f"{f.module.rel}:{l.lineno}")
+    for cname, dirs in per_class.items():
+        if len(dirs) > 1:
+            run.violation(R, cname, "journal-direction-differs",
+                          f"encoder and decoder of {cname} search the journal in different "
+                          "directions", prog.cls(cname).loc if prog.has_cls(cname) else "")
+    if n < 2:
+        raise AnalysisError("journal lookups not found (anchor moved)")
+
+
+# ----------------------------------------------------------------------- R2 (placeholders)
+def _placeholder_width(prog: Program, run: Run, R: str = "C01.R2") -> None:
+    """The first encoder pass reserves the bytes of a length / table key: exactly
+    ((bit_position or 0) + static bit length + 7) // 8 zero bytes, the width the second pass
+    writes and the decoder consumes. Decided on the symbolic value of the emplaced bytes."""
+    from ..cfg import symbolic_paths
+    for cls in ("LengthKeyParameter", "TableKeyParameter"):
+        f = prog.cls(cls).methods.get("encode_placeholder_into_pdu")
+        if f is None:
+            raise AnalysisError(f"{cls}.encode_placeholder_into_pdu not found")
+        C = f"{cls}.encode_placeholder_into_pdu"
+
+        def env(node: ast.AST):
+            if isinstance(node, ast.Call) and call_name(node) == "odxrequire" and node.args:
+                return normalize(node.args[0], env)
+            if isinstance(node, ast.Call) and call_name(node) == "get_static_bit_length":
+                return Rat(Poly.atom("N"))
+            if isinstance(node, ast.BoolOp) and ast.unparse(node) == "self.bit_position or 0":
+                return Rat(Poly.atom("B"))
+            return None
+        want = normalize(ast.parse("(N + B + 7) // 8", mode="eval").body)
+        widths = set()
+        n_paths = 0
+        for p_ in symbolic_paths(f.node):
+            calls = [x for st in p_.trace for x in ast.walk(st) if isinstance(x, ast.Call) and
+                     call_name(x) == "emplace_bytes" and x.args]
+            for c in calls:
+                n_paths += 1
+                a0 = c.args[0]
+                v = p_.env.get(a0.id) if isinstance(a0, ast.Name) else a0
+                if isinstance(v, ast.BinOp) and isinstance(v.op, ast.Mult):
+                    cnt = v.right if isinstance(v.left, ast.Constant) else v.left
+                    widths.add(normalize(cnt, env).key())
+                else:
+                    widths.add("?" + (ast.unparse(v) if v is not None else "unassigned"))
+        if n_paths and widths == {want.key()}:
+            run.ok(R, C, "the placeholder is ((bit_position or 0) + static bit length + 7)//8 "
+                   "bytes wide", f.loc)
+        elif not n_paths:
+            run.violation(R, C, "no-placeholder", "no placeholder bytes are emplaced for the key",
+                          f.loc)
+        else:
+            run.violation(R, C, "placeholder-width",
+                          f"the placeholder reserved for the key is {sorted(widths)} bytes wide, "
+                          f"not {want.key()} (N = static bit length, B = bit_position or 0): a "
+                          "key that straddles a byte boundary gets too few bytes and the real "
+                          "key value later overwrites the following parameter", f.loc)
 
 
 # ----------------------------------------------------------------------- R1
